@@ -60,7 +60,7 @@ func DecodeCRI(data []byte) (row CRIRow, _ error) {
 
 	log := data
 	// remove \n from log for partial logs
-	if row.IsPartial {
+	if row.IsPartial && len(log) > 0 {
 		log = log[:len(log)-1]
 	}
 
